@@ -36,6 +36,11 @@ What is mirrored, statement by statement:
   owner, i.e. after the `AddSession` posted by `OnSessionCreate` [fix d1d6afb, `Fixes.d20`; before it
   a message read while the owner had not yet run `AddSession` carried `SessionId` 0, and a forwarded
   request's reply then failed the "missmatch res" check and was dropped].
+* `ClientSession.processPacket` (reader goroutine): a Data packet reaches the front only while the
+  session is in StatusWorking; a Handshake packet — also on a working session — sets StatusHandshake
+  until the next HandshakeAck, data packets read meanwhile are ignored, while `ResponseMID` keeps
+  writing (it refuses only StatusClosed).  A `req` of a history is therefore a request the reader
+  DELIVERED; the driver drops the ones sent between a re-handshake and its ack.
 * request expiry: an entry older than 30 s is completed with `ErrTimeout` by the 1 s
   scan, i.e. in (30 s, 31 s]; a reply arriving later finds no entry and is dropped.
 
